@@ -10,16 +10,20 @@ func (vt *Model) handleMouse(msg vaxis.Mouse) string {
 	if !vt.mode.mouseButtons && !vt.mode.mouseDrag && !vt.mode.mouseMotion {
 		if vt.mode.altScroll && vt.mode.smcup {
 			// Translate wheel motion into arrows up and down
-			// 3x rows
+			// 3x rows, in the form the cursor key mode selects
+			up, down := "\x1b[A", "\x1b[B"
+			if vt.mode.decckm {
+				up, down = "\x1bOA", "\x1bOB"
+			}
 			if msg.Button == vaxis.MouseWheelUp {
-				vt.pty.WriteString("\x1bOA")
-				vt.pty.WriteString("\x1bOA")
-				vt.pty.WriteString("\x1bOA")
+				vt.pty.WriteString(up)
+				vt.pty.WriteString(up)
+				vt.pty.WriteString(up)
 			}
 			if msg.Button == vaxis.MouseWheelDown {
-				vt.pty.WriteString("\x1bOB")
-				vt.pty.WriteString("\x1bOB")
-				vt.pty.WriteString("\x1bOB")
+				vt.pty.WriteString(down)
+				vt.pty.WriteString(down)
+				vt.pty.WriteString(down)
 			}
 		}
 		return ""
